@@ -230,6 +230,43 @@ def check(run, repo, world):
         run.count(len(res))
     run.floor("event decode leaves", n_ev, 90)
 
+    # ---- what a caller reads is what the decoder stored ------------------------
+    # the leaf comparison above looks at the fields the decoder sets; the
+    # public accessors hand exactly those out ("all others None": an
+    # accessor that turns None into 0 reports a field the scheme does not
+    # carry)
+    run.rule("R-EVT-ACCESS", "the source-field accessors of an event return "
+             "the stored field unchanged")
+    from .. import paths as _pth
+    n_acc = 0
+    for fld in ("short_address", "device_group", "instance_number",
+                "instance_type", "instance_group"):
+        for k_ in [x for x in world.class_order if ev in x.mro]:
+            if fld not in k_.methods:
+                continue
+            kind_, f_ = k_.methods[fld]
+            if kind_ != "property":
+                continue
+            n_acc += 1
+            try:
+                ps_ = _pth.summaries(f_)
+            except _pth.Unsupported as e_:
+                raise AnalysisError("%s.%s: %s" % (k_.qname, fld, e_))
+            ok_ = bool(ps_) and all(
+                p_.kind == "return" and p_.expr is not None and unparse(
+                    p_.expr) in ("self._" + fld,
+                                 "getattr(self, '_%s')" % fld,
+                                 "getattr(self, '_%s', None)" % fld)
+                for p_ in ps_)
+            run.ob("R-EVT-ACCESS", "%s.%s" % (k_.qname, fld), ok_,
+                   "%s.%s returns %s, not the stored field self._%s as it "
+                   "is: a field the frame's scheme does not carry must read "
+                   "None" % (k_.name, fld, sorted({
+                       unparse(p_.expr, 50) if p_.expr is not None
+                       else p_.kind for p_ in ps_}), fld),
+                   where(repo.mod(k_.mod), f_))
+    run.floor("event source-field accessors", n_acc, 5)
+
     # ---- registry ---------------------------------------------------------------
     run.rule("R-EVT-REG", "instance type registry 1/3/4; module constants")
     o = rx.obj(ev)
